@@ -67,14 +67,20 @@ SelectFails(s, fin, disp) ==
 StdinFails(s, fin) ==
   LET m == IF Has(fin, "stdout_matches") THEN SeqToSet(fin.stdout_matches) ELSE {} IN
   (IF fin.exit # s.expect.exit THEN {"exit"} ELSE {}) \cup
-  (CASE s.expect.stdout = "fmt"   -> IF (IF s.c.pathcase = "cfgdir" THEN "fmt_cfgdir" ELSE IF s.c.pathcase = "ecdir" THEN "fmt_ecdir" ELSE "fmt") \notin m THEN {"stdout_not_formatted_text"} ELSE {}
+  (CASE s.expect.stdout = "fmt"   -> IF (IF s.c.extra = "range_end" THEN "fmt_range_end" ELSE IF s.c.pathcase = "cfgdir" THEN "fmt_cfgdir" ELSE IF s.c.pathcase = "ecdir" THEN "fmt_ecdir" ELSE "fmt") \notin m THEN {"stdout_not_formatted_text"} ELSE {}
      [] s.expect.stdout = "input" -> IF "input" \notin m THEN {"stdout_not_passthrough"} ELSE {}
      \* (the summary format always prints a header and a footer: there "empty" means that no file is listed)
      [] s.expect.stdout = "empty" -> IF (IF s.c.mode = "check_summary" THEN fin.n_diffs # 0 ELSE fin.stdout_len # 0) THEN {"stdout_not_empty"} ELSE {}
      [] s.expect.stdout = "diff"  -> IF (IF s.c.mode = "check_summary" THEN fin.n_diffs = 0 ELSE fin.stdout_len = 0) THEN {"no_diff_printed"} ELSE {}
      [] OTHER -> {}) \cup
   (IF fin.created # <<>> \/ fin.deleted # <<>> THEN {"file_created"} ELSE {}) \cup
-  (IF \E o \in SeqToSet(fin.files) : ~o.same_bytes \/ ~o.same_mtime THEN {"file_modified"} ELSE {})
+  (IF \E o \in SeqToSet(fin.files) : ~o.same_bytes \/ ~o.same_mtime THEN {"file_modified"} ELSE {}) \cup
+  \* the diff printed for stdin input takes the piped text to the library's output, like the diff of a file (C18's oracle)
+  (IF Has(fin, "diff") /\ fin.diff.have_new
+   THEN LET d == fin.diff IN
+        (IF s.c.mode = "check_unified" /\ ~d.same /\ Df!ApplyUnified(d.old, d.hunks) # d.new THEN {"stdin_unified_does_not_reconstruct"} ELSE {}) \cup
+        (IF s.c.mode = "check_json" /\ ~d.same /\ Df!ApplyJson(d.old, d.mismatches) # d.new THEN {"stdin_json_does_not_reconstruct"} ELSE {})
+   ELSE {})
 
 (* C18: the printed diff reconstructs the formatted file; nothing is printed iff the file is already formatted *)
 DiffFails(s, fin) ==
@@ -112,6 +118,7 @@ TraceFinal ==
             Report(E, {V(ModeProp(sc), w) : w \in fs} \cup {V("C19", w) : w \in fs})
        [] Kind(sc) = "config" -> Report(E, {V("C15", w) : w \in ConfigFails(sc, E)})
        [] Kind(sc) = "stdin" -> Report(E, {V("C17", w) : w \in StdinFails(sc, E)} \cup
+                                          {V("C18", w) : w \in StdinFails(sc, E) \cap {"stdin_unified_does_not_reconstruct", "stdin_json_does_not_reconstruct"}} \cup
                                           (IF written # <<>> THEN {V("C17", "fs_write")} ELSE {}))
        [] Kind(sc) = "diff" -> Report(E, {V("C18", w) : w \in DiffFails(sc, E)})
        [] Kind(sc) = "carrier" -> Report(E, {V("C20", w) : w \in CarrierFails(sc, E)})
